@@ -401,7 +401,7 @@ crate::harnesses! {
     #[kani::unwind(22)]
     c15_merge_default (quick, "CodesStats<10,20,10,10,10> (default)", "add, +=, +, sum over symbolic statistics (fields<2^56)") => merge_step::<_, 10, 20, 10, 10, 10>;
     #[kani::unwind(22)]
-    c15_best_code_default (quick, "CodesStats<10,20,10,10,10> (default)", "any stats value") => best_code_step::<_, 10, 20, 10, 10, 10>;
+    c15_best_code_default (thorough, "CodesStats<10,20,10,10,10> (default)", "any stats value") => best_code_step::<_, 10, 20, 10, 10, 10>;
     #[kani::unwind(22)]
     c15_best_code_reduced (quick, "CodesStats<2,3,2,2,2>", "any stats value") => best_code_step::<_, 2, 3, 2, 2, 2>;
     #[kani::unwind(12)]
